@@ -341,6 +341,9 @@ package threshold
 //@     assert [no-classifier-residue] was(string(topicHash), s.messageClassifiers) || !(string(topicHash) in s.messageClassifiers)
 //@     assert [no-rbc-residue]        was(string(topicHash), s.rbcInProgress) || !(string(topicHash) in s.rbcInProgress)
 //@     assert [timeout-is-error]      done(ctx) ==> result.1 != nil
+//@     // an error delivered through the result slot (signer preparation, synchronisation, back end) is what Sign returns
+//@     assert [result-error]          res.err != nil ==> result.1 != nil
+//@     assert [result-signature]      result.1 == nil ==> same(result.0, res.sig)
 //@
 //@ func (*Scheme).KeyGen
 //@   props C12 C11
@@ -363,3 +366,5 @@ package threshold
 //@   requires ctx != nil && membership != nil && dkgProtocolInstance != nil && sync != nil
 //@   at return:
 //@     assert [timeout-is-error] done(ctx) ==> result.2 != nil
+//@     assert [result-error]     res.err != nil ==> result.2 != nil
+//@     assert [result-data]      result.2 == nil ==> same(result.0, res.data) && same(result.1, res.parties)
